@@ -8,6 +8,7 @@ import MpirProofs.Lemmas.GcdMpz
 import MpirProofs.Lemmas.GcdExt1
 import MpirProofs.Lemmas.GcdExtZ
 import MpirProofs.Lemmas.GcdJacobi
+import MpirProofs.Lemmas.GcdKronW
 namespace Mpir.C07
 open Mpir Mpir.Gcd
 
@@ -168,5 +169,28 @@ example : jacobi_base 1001 9907 0 = -1 := by decide +kernel
 theorem kronecker_spec (a b : ℤ) : kronecker a b = kronSym a b := kronecker_eq_kronSym a b
 
 example : kronecker (-15) 28 = -1 := by decide +kernel
+
+/-- mpz_kronecker_ui, mpz_kronecker_si, mpz_ui_kronecker, mpz_si_kronecker (removal of twos with the
+    (2/a) rule, sign rules for negative operands, zero cases, stripping of low zero limbs of b, the
+    b = 2^63·B^k special case, reduction by mpn_modexact_1_odd with its (-1/b) correction, reciprocity
+    when the small operand is on top): each model returns the Kronecker symbol `kronSym` for every
+    sign, parity and zero combination — no word-size restriction is needed. -/
+theorem kronecker_wrappers_spec :
+    (∀ (a : ℤ) (b : Nat), mpz_kronecker_ui a b = kronSym a b) ∧
+    (∀ a b : ℤ, mpz_kronecker_si a b = kronSym a b) ∧
+    (∀ (a : Nat) (b : ℤ), mpz_ui_kronecker a b = kronSym a b) ∧
+    (∀ a b : ℤ, mpz_si_kronecker a b = kronSym a b) :=
+  Mpir.Gcd.kronecker_wrappers_spec
+
+example : mpz_kronecker_si (-(2 ^ 70 + 7)) (-24) = -1 := by decide +kernel
+example : mpz_ui_kronecker 21 (-(2 ^ 64 * 2 ^ 63)) = -1 := by decide +kernel
+
+/-- mpz_jacobi = mpz_legendre = mpz_kronecker (zero operands, common factor two, signs, low zero
+    limbs, the shifted low limb `blow`, operand swap by generalised reciprocity, single-limb branch
+    through modexact + mpn_jacobi_base, general branch through mpn_jacobi_n): the model returns the
+    Kronecker symbol for all integers a, b.  (mpn_jacobi_n itself is modelled by its specification.) -/
+theorem mpz_jacobi_spec (a b : ℤ) : mpz_jacobi a b = kronSym a b := Mpir.Gcd.mpz_jacobi_spec a b
+
+example : mpz_jacobi (2 ^ 63 * 2 ^ 64 * 7) (-(2 ^ 130 + 3)) = -1 := by decide +kernel
 
 end Mpir.C07
